@@ -185,8 +185,9 @@ def grid(W, t, tier):
             s.add((1 << k) - 1)
             s.add(1 << k)
     vals = sorted(v for v in s if -mx - 1 <= v <= mx)
-    if tier == 'quick' and len(vals) > 40:
-        vals = vals[:20] + vals[-20:]
+    if tier == 'quick' and len(vals) > 44:
+        # keep the values nearest to zero and to the extremes
+        vals = sorted(sorted(vals, key=abs)[:22] + sorted(vals, key=abs)[-22:])
     return vals
 
 
@@ -404,7 +405,7 @@ def coverage(total, tier):
         'binary': 'every operator/cast in value, branch and !truth_is_defeat (try/undo, try/stop, inside a defeat function) positions '
                   'for int x int, byte x byte, byte x int, int x byte on all pairs of the boundary grid '
                   '(0, +-1, +-2, 127/128, 255/256/257, +-2^(8k)+-1, min, max, min+1, max-1, ...: '
-                  + ('full grid' if tier == 'thorough' else 'at most 40 values per operand') + ') at W in '
+                  + ('full grid' if tier == 'thorough' else 'at most 44 values per operand') + ') at W in '
                   + ('2,3,4,8' if tier == 'thorough' else '2,3,4'),
         'literals': 'the same operators with both operands written as literals (13 values per word size incl. max, max+1, 2^n-1, 2^n, 2^n+1): all 169 pairs',
         'unary': ('all 65536 values' if tier == 'thorough' else '6 windows of 32 values around the boundaries') + ' at W=2 for - , is byte, is bool, not, *, /, %, <',
